@@ -107,7 +107,7 @@ Definition t_end (t : table) (f : fam) : table * list (N * N) :=
 Definition d_remove (l : list (N * list path)) (n : N) : list (N * list path) :=
   filter (fun e => negb (fst e =? n)) l.
 
-(* Table::remove (slice).  UNFIXED_MARK *)
+(* Table::remove (slice); while the family is deferring no change is returned (fix C11-2) *)
 Definition t_remove (t : table) (f : fam) (net peer pid : N) : table * tabres :=
   match t_get t f with
   | None => (t, RNoChange)
@@ -121,7 +121,7 @@ Definition t_remove (t : table) (f : fam) (net peer pid : N) : table * tabres :=
               let kept := filter (fun p => negb (same_path peer pid p)) old in
               let dests := match kept with [] => d_remove (rf_dests r) net | _ => d_set (rf_dests r) net kept end in
               let t' := t_set t f {| rf_deferring := rf_deferring r; rf_dests := dests |} in
-              if pa_filtered removed then (t', RNoChange)
+              if pa_filtered removed || rf_deferring r then (t', RNoChange)
               else (t', RChanged net (n_unfiltered kept))
           end
       end
@@ -142,7 +142,9 @@ Definition t_drop (t : table) (f : fam) (peer : N) : table * tabres :=
                            | [] => []
                            | l => [(fst e, l)]
                            end) (rf_dests r) in
-      (t_set t f {| rf_deferring := rf_deferring r; rf_dests := dests |}, RChanges changes)
+      (* if rt.deferring { changes.clear() }   (fix C11-2) *)
+      (t_set t f {| rf_deferring := rf_deferring r; rf_dests := dests |},
+       RChanges (if rf_deferring r then [] else changes))
   end.
 
 Definition t_step (t : table) (o : tabop) : table * tabres :=
